@@ -1,10 +1,13 @@
 from cfg.common import FLOAT_ASSUMPTION, NOTE_COMMON
+from cfg.kernels_pre import regen as regen_kernels, KERNEL_THEOREMS, KERNEL_TRUSTED, KERNEL_ASSUMPTION
 
 PROP = {
     'anchors': [('consist/locomotive/powertrain/fuel_converter.rs', 'solve_energy_consumption'), ('consist/locomotive/powertrain/generator.rs', 'set_pwr_in_req'), ('consist/locomotive/powertrain/electric_drivetrain.rs', 'set_pwr_in_req'), ('consist/locomotive/powertrain/reversible_energy_storage.rs', 'solve_energy_consumption'), ('consist/locomotive/conventional_loco.rs', 'solve_energy_consumption'), ('consist/locomotive/battery_electric_loco.rs', 'solve_energy_consumption'), ('consist/locomotive/locomotive_model.rs', 'solve_energy_consumption'), ('consist/locomotive/locomotive_model.rs', 'set_pwr_aux'), ('consist/consist_model.rs', 'solve_energy_consumption'), ('consist/consist_model.rs', 'get_energy_fuel'), ('consist/consist_model.rs', 'get_net_energy_res')],
     'blocks': ['pt'],
-    'proof_modules': ['C01'],
-    'namespaces': ['Altrios.Proofs.C01'],
+    'pre': [regen_kernels],
+    'trusted_extra': [KERNEL_TRUSTED],
+    'proof_modules': ['C01', 'Kernels'],
+    'namespaces': ['Altrios.Proofs.C01', 'Altrios.Proofs.Kernels'],
     'required_theorems': [
         'Altrios.Proofs.C01.C01_fc_balance', 'Altrios.Proofs.C01.C01_gen_balance',
         'Altrios.Proofs.C01.C01_edrv_balance', 'Altrios.Proofs.C01.C01_res_balance', 'Altrios.Proofs.C01.C01_res_soc',
@@ -14,7 +17,7 @@ PROP = {
         'Altrios.Proofs.C01.C01_closed', 'Altrios.Proofs.C01.C01_consist_rollup',
         'Altrios.Proofs.C01.C01_consist_walk', 'Altrios.Proofs.C01.C01_consist_closed',
         'Altrios.Proofs.C01.C01_consist_ledger',
-    ],
+    ] + KERNEL_THEOREMS,
     'nontrivial_stats': ['pt.loco.traction', 'pt.loco.braking', 'pt.loco.engine_off_step',
                          'pt.consist.traction_', 'pt.consist.braking_'],
     'rule': 'each evaluation is one call of the real code (a whole locomotive / consist simulation step, or one component '
@@ -24,7 +27,7 @@ PROP = {
                     'energy_capacity.get::<watt_hour>() (uom unit conversion) is passed to the model as a value',
                     'HybridLoco / DummyLoco units are not modelled (the generators never build them)',
                     'ledger theorems for the |.|-defined losses (drivetrain, battery) assume every efficiency in (0,1] '
-                    '(proved from map values in (0,1] in C08)'],
+                    '(proved from map values in (0,1] in C08)'] + [KERNEL_ASSUMPTION],
 }
 
 TEXT = {
